@@ -260,6 +260,47 @@ def r2_history(ctx):
     ts, tc = f["blocks"][sets[0]]["term"], f["blocks"][counts[0]]["term"]
     ok = cfg.dominates(sets[0], counts[0])
     ctx.ob(rid, "negamax|set-dominates-count", ok, "" if ok else "count_repetitions can be reached without recording the current position first", ctx.where(f, tc["line"]))
+    # the repetition test comes before every transposition-table probe: a stored value must not answer for a node
+    # that is a repetition (the table key knows nothing about the history)
+    probes = [b for b in sorted(cfg.reach) if f["blocks"][b]["term"]["k"] == "call" and (f["blocks"][b]["term"]["callee"].get("orig") or f["blocks"][b]["term"]["callee"].get("key") or "").endswith("TranspositionTable::get")]
+    # the count may legitimately be skipped at the root (ply_depth_from_root == 0) and under a half-move-clock guard
+    # (judged by R5): the edges of such switches that lead around the count are allowed; any other way to a probe
+    # that avoids the count is a probe before the repetition test
+    skip_edges = set()
+    for b_ in sorted(cfg.reach):
+        t_ = f["blocks"][b_]["term"]
+        if t_["k"] == "switch" and cfg.dominates(b_, counts[0]):
+            d_ = ex.operand(t_["discr"])
+            lv = list(leaves(d_))
+            if ("param", 3) in lv or any(is_clock_read(x) for x in lv) or any(x[0] == "f" and x[2] == "halfmove_clock" for x in lv):
+                for y in cfg.succ[b_]:
+                    if counts[0] not in cfg.reachable_from(y) or not cfg.dominates(b_, counts[0]):
+                        skip_edges.add((b_, y))
+                    else:
+                        # the successor that can still reach the count is the guarded way; the other one skips it
+                        pass
+                others = [y for y in cfg.succ[b_] if not cfg.dominates(y, counts[0]) and y != counts[0]]
+                for y in others:
+                    skip_edges.add((b_, y))
+    def reachable_avoiding(target):
+        seen, work = set(), [0]
+        while work:
+            x = work.pop()
+            if x in seen or x == counts[0]:
+                continue
+            if x == target:
+                return True
+            seen.add(x)
+            for y in cfg.succ[x]:
+                if f["blocks"][y]["cleanup"] or (x, y) in skip_edges:
+                    continue
+                work.append(y)
+        return False
+    late = [p_ for p_ in probes if reachable_avoiding(p_)]
+    ok = bool(probes) and not late
+    ctx.ob(rid, "negamax|repetition-test-before-table-probe", ok,
+           "" if ok else ("search_negamax probes the transposition table before it has tested for repetition: a third occurrence with a stored entry returns the stored (material) value instead of the draw value" if probes else "no transposition-table probe found in search_negamax"),
+           ctx.where(f, tc["line"]), sample={"probes": len(probes)})
     makes = call_blocks(f, cfg, B.MAKE)
     undominated = [m for m in makes if not cfg.dominates(sets[0], m)]
     ok = bool(makes) and not undominated
@@ -285,6 +326,26 @@ def r2_history(ctx):
     if not gsets or not gmakes:
         ctx.lost(rid, "set_position_from: ZobristHistory::set / Bitboard::make calls")
         return
+    # the replay starts from an empty history: the history the entries are written to is a fresh ZobristHistory
+    # (a local initialised by Default::default, or the state field reassigned / cleared before the first entry)
+    fresh = False
+    for b in sorted(cg_.reach):
+        t = g["blocks"][b]["term"]
+        if t["k"] == "call" and (t["callee"].get("key") or "").endswith("<ZobristHistory as Default>::default") and all(cg_.dominates(b, s_) for s_ in gsets):
+            dest = t.get("dest")
+            recv = set()
+            for s_ in gsets:
+                r = exg.operand(g["blocks"][s_]["term"]["args"][0])
+                while r[0] in ("&", "*"):
+                    r = r[1]
+                recv.add(r)
+            if dest is not None and (("local", dest["l"]) in recv or any(x[0] == "call" and x[1].endswith("<ZobristHistory as Default>::default") for x in recv)):
+                fresh = True
+            if dest is not None and dest["p"] and isinstance(dest["p"][-1], dict) and dest["p"][-1].get("name") == "zobrist_history":
+                fresh = True
+    ctx.ob(rid, "replay|starts-from-an-empty-history", fresh,
+           "" if fresh else "set_position_from records the replayed positions into a history that is not freshly created: entries of an earlier position command stay in the window that count_repetitions scans (a position that occurred once is valued as a threefold repetition)",
+           ctx.where(g))
     loops = cg_.back_edges()
     first_outside = [b for b in gsets if not cg_.in_loop(b)]
     ok = bool(first_outside) and all(cg_.dominates(first_outside[0], m) for m in gmakes)
